@@ -1042,9 +1042,9 @@ def shard(spec) -> core.Acc:
         if combo_list:
             acc.sample({'part': PART, 'mode': 'scene', 'focus': focus, 'devs': devs_of(focus, combo_list[-1])}, 1)
     elif kind == 'image1':
-        _, focus, combo_list = spec
+        _, focus, combo_list, versions = spec
         for combo in combo_list:
-            for version in (2, 3):
+            for version in versions:
                 check_image_case(acc, {'part': PART, 'mode': 'image', 'version': version, 'light': True,
                                        'entries': [[FILENAMES[0], focus, devs_of(focus, combo)]]})
     elif kind == 'imageN':
@@ -1069,13 +1069,13 @@ def run(ctx: core.Ctx) -> None:
     for focus in FOCI:
         singles = [()] + (list(combos(focus, 1)) if focus in image_foci else [])
         for chunk in core.chunked(singles, 30):
-            shards.append(('image1', focus, chunk))
+            shards.append(('image1', focus, chunk, (2, 3)))
     menu = range(ctx.pick(4, len(IMAGE_MENU)))
     perms = [p for r in (1, 2, 3) for p in itertools.permutations(menu, r)]
     for chunk in core.chunked(perms, 3):
         shards.append(('imageN', chunk))
     for chunk in core.chunked(summary_pairs(), 30):
-        shards.append(('image1', 'S', chunk))
+        shards.append(('image1', 'S', chunk, ctx.pick((3,), (2, 3))))
     shards += [('sample', f) for f in SAMPLES]
     n_scene = 0
     for focus in FOCI:
@@ -1099,7 +1099,7 @@ RULE = (
     '(export_text/parse_text with a default Tokenizer) and binary (export_binary/parse_binary with a harness string '
     'pool); every Interpolation member is swept as a single deviation.  scenes.image v2+v3: every base scene and every '
     'single-deviation scene (quick: Speak focus; thorough: all four) and every pair of deviations over the 9 features '
-    'the entry summary depends on (times, wave, caption options, extra events, placement) as a one-entry image, and '
+    'the entry summary depends on (times, wave, caption options, extra events, placement; quick: v3 only) as a one-entry image, and '
     'every ordered selection of 1-3 of 4 (quick) / 5 (thorough) (filename, scene) pairs (these also re-saved); the '
     'file is decoded independently (struct + lzma) for order and summaries, read back, and re-saved both with '
     'unparsed and with parsed entries.  Sample files tests/test_choreo/*.  Representability: strings are latin-1 '
